@@ -134,7 +134,8 @@ class SendProxy(object):
     """Stands in for tasker.runner: logs every control sent to the generator, the status it
     yielded (or how it ended) and the slice of recorder events produced meanwhile."""
 
-    def __init__(self, tasker, trace, events, tickref):
+    def __init__(self, tasker, trace, events, tickref, before=None):
+        self._before = before
         self._gen = tasker.runner
         self._name = tasker.name
         self._trace = trace
@@ -146,6 +147,12 @@ class SendProxy(object):
         ent = {"name": self._name, "control": CONTROL.get(control, control), "tick": self._tick(),
                "status": None, "events": None}
         self._trace.append(ent)
+        if self._before is not None:
+            exc = self._before(ent)
+            if exc is not None:          # delivered in the skedder, before the generator is resumed
+                ent["status"] = "not-delivered " + type(exc).__name__
+                ent["events"] = []
+                raise exc
         try:
             status = self._gen.send(control)
         except StopIteration:
@@ -182,11 +189,13 @@ class Traced(object):
 
 
 def run_traced(house, events, tick=0.125, horizon=40, stamp=0.0, interrupt_at=None, interrupt_exc=None, limit=20.0,
-               res=None):
+               res=None, before_send=None):
     """Run a (built or hand-made) house under the real Skedder with every scheduled tasker's
     runner wrapped by SendProxy.  `events` is the list the recorder doer appends to.
     `interrupt_at=k`: the changeStamp call that would begin tick k raises `interrupt_exc`
-    (KeyboardInterrupt by default): an interrupt between ticks k-1 and k."""
+    (KeyboardInterrupt by default): an interrupt between ticks k-1 and k.
+    `before_send(entry)` -> None | exception: called in the skedder's context just before a control
+    is forwarded to a generator; a returned exception is raised instead of forwarding."""
     if res is None:
         res = Traced()
     del events[:]
@@ -211,7 +220,7 @@ def run_traced(house, events, tick=0.125, horizon=40, stamp=0.0, interrupt_at=No
         res.trace.append(("tick", k, store.stamp))
 
     for t in house.taskables:
-        t.runner = SendProxy(t, res.trace, events, curtick)
+        t.runner = SendProxy(t, res.trace, events, curtick, before_send)
     store.changeStamp = change
     sk = skedding.Skedder(name="verif", period=tick, stamp=stamp, real=False, houses=[house])
     try:
